@@ -310,7 +310,9 @@ class Emulsion(list):
         records = data.view(np.recarray)
         for i, d in enumerate(self):
             d.data = records[i]
-        return data
+        # also return the record view, so the rows of the returned array can be used
+        # wherever the data of a droplet is expected (e.g., in `_merge_data`)
+        return records
 
     @classmethod
     def _from_hdf_dataset(cls, dataset) -> Emulsion:
